@@ -6,7 +6,14 @@ set -u
 SD=$(readlink -f "$1"); shift
 export GOFLAGS=-mod=mod GOPROXY=off
 WT=/tmp/wt-verify-$$
-git -C /repo worktree add -q --detach $WT HEAD || exit 2
+# a seed is a patch against the tree it was written for: meta.json may pin that
+# commit (base_commit) when a later fix commit rewrote the same lines
+BASE=${SEED_BASE:-HEAD}
+if [ -f $SD/meta.json ]; then
+  b=$(python3 -c "import json;print(json.load(open('$SD/meta.json')).get('base_commit',''))")
+  [ -n "$b" ] && BASE=$b
+fi
+git -C /repo worktree add -q --detach $WT $BASE || exit 2
 trap 'git -C /repo worktree remove --force $WT >/dev/null 2>&1; rm -rf /verif/.bin/alt-* /verif/.bin/mmmbbb-alt-*' EXIT
 demofile=$(ls $SD/*_test.go $SD/*_test.go.txt 2>/dev/null | head -1)
 if [ -f $SD/demo_path.txt ]; then demo=$(cat $SD/demo_path.txt | tr -d '\n ');
@@ -22,7 +29,7 @@ echo "--- demo with the change (expect FAIL):"
 ( cd $WT && git apply -R $SD/patch.diff )
 echo "--- demo without the change (expect ok):"
 ( cd $WT && go test -vet=off -count=1 -run 'Seeded|Demo' $pkg 2>&1 | tail -3 )
-echo "--- checks against a scratch worktree of /repo HEAD with the change applied:"
+echo "--- checks against a scratch worktree of /repo $BASE with the change applied:"
 ( cd $WT && rm -f $demo && git apply $SD/patch.diff ) || { echo "PATCH DOES NOT APPLY"; exit 2; }
 for p in "$@"; do
   VERIF_REPO=$WT /verif/check $p 2>&1 | grep -E "^(VIOLATION|KNOWN|INCONCLUSIVE|NOTE|  signature|$p )" | cut -c1-230 | head -14
